@@ -187,7 +187,16 @@ def generate(rng, tier, idx):
     for p in cand:
         for api in ('find_path_entry', 'verify_path', 'assert_path_verifies'):
             if rng.random() < 0.7:
-                probes.append({'api': api, 'path': p})
+                pr = {'api': api, 'path': p}
+                if rng.random() < 0.4:
+                    # earlier calls on the SAME loader (what `gemato verify` does before verifying: find_timestamp;
+                    # or lookups of other paths) must not let unverified Manifests in
+                    pr['pre'] = rng.sample(['find_timestamp', 'find_timestamp', 'lookup:' + rng.choice(plist), 'dist:' + dirs[rng.randrange(len(dirs))]],
+                                           rng.choice([1, 1, 2]))
+                probes.append(pr)
+    for d in dirs[1:]:
+        if rng.random() < 0.4:
+            probes.append({'api': 'dir', 'sub': d, 'pre': ['find_timestamp']})
     for name, mp in dists.items():
         if rng.random() < 0.8:
             probes.append({'api': 'find_dist_entry', 'name': name,
@@ -250,9 +259,24 @@ def execute(sc):
             api = op['api']
             with seam:
                 seam.begin_op(i)
+                def fresh_loader():
+                    m = ManifestRecursiveLoader(top_path)
+                    for pre in op.get('pre', []):
+                        try:
+                            if pre == 'find_timestamp':
+                                m.find_timestamp()
+                            elif pre.startswith('lookup:'):
+                                m.find_path_entry(pre[7:])
+                            elif pre.startswith('dist:'):
+                                m.find_dist_entry('dist-0.tar', pre[5:])
+                        except Exception:
+                            pass
+                    if op.get('pre'):
+                        counters['probes_after_earlier_calls'] = counters.get('probes_after_earlier_calls', 0) + 1
+                    return m
                 if api == 'dir':
                     v = model.verdict(op.get('sub', ''))
-                    r = call(lambda: ManifestRecursiveLoader(top_path).assert_directory_verifies(op.get('sub', '')))
+                    r = call(lambda: fresh_loader().assert_directory_verifies(op.get('sub', '')))
                     results.append(r)
                     vs, zone = check_strict_verify(v, r, 'assert_directory_verifies(%r)' % op.get('sub', ''))
                     violations += vs
@@ -268,7 +292,7 @@ def execute(sc):
                 else:
                     key = op['path']
                     loaded = model.load_chain(key, v, recursive=False)
-                ld = ManifestRecursiveLoader
+                ld = lambda _tp: fresh_loader()
                 if api == 'find_path_entry':
                     r = call(lambda: entry_view(ld(top_path).find_path_entry(op['path'])))
                 elif api == 'verify_path':
